@@ -166,3 +166,25 @@ contract(
              ("span", "result.minTimestamp == self.minTimestamp and result.maxTimestamp == "
                       "(start + (self.maxTimestamp - end) if doShrink else self.maxTimestamp)")],
 )
+
+
+def loose_textgrid(S, name, k):
+    """neither the tiers' well-formedness nor the agreement of their spans with the textgrid's is assumed (that is
+    what validate() decides); names are unique (class invariant of the tier map)"""
+    pairs = []
+    env = {}
+    from contracts.c_queries import any_interval_tier, any_point_tier
+    for i in range(k):
+        t = any_interval_tier(S, "%s.t%d" % (name, i)) if i % 2 == 0 else any_point_tier(S, "%s.t%d" % (name, i))
+        pairs.append((S.attr(t, "name"), t))
+        env["t%d" % i] = t
+    for i in range(k):
+        for j in range(i + 1, k):
+            S.assume("t%d.name != t%d.name" % (i, j), env)
+    return S.obj(TG, _tierDict=S.odict(pairs), minTimestamp=S.real(name + ".min"), maxTimestamp=S.real(name + ".max"))
+
+
+contract(TG + ".validate", serves=["C15", "C12"], spec_module="spec.textgrids",
+         configs={"k": [0, 1, 2], "reportingMode": ["silence", "warning", "bogus"]},
+         inputs=lambda S, cfg: dict(self=loose_textgrid(S, "self", cfg["k"]), reportingMode=cfg["reportingMode"]),
+         spec="spec.textgrids.Textgrid_validate", frame=["self"])
